@@ -208,6 +208,7 @@ fn main() {
             println!("{}", legs::c17::judge_wire(&report::unhex(&args.str("hex", ""))));
             return;
         }
+        "miri-subset" => legs::miri_subset::run(seed, args.u64("n", 120)),
         "consts" => {
             println!("{}", legs::dnsmisc::consts());
             return;
